@@ -55,7 +55,7 @@ static bool has_clock(type_t type)
     while (type.is_array())
         type = type.get_sub();
     if (type.is_record()) {
-        for (size_t i = 0; i < type.size(); ++i)
+        for (uint32_t i = 0; i < type.get_record_size(); ++i)  // the fields, also behind a typedef name or a prefix
             if (has_clock(type.get_sub(i)))
                 return true;
         return false;
